@@ -57,8 +57,10 @@ type Runner struct {
 	done     map[string]int // reply subject -> request.done count
 	listened int64          // listener.msgDone count
 	qpassed  int64
-	reqSeq   int64
-	extra    func(point string, arg interface{})
+	// listenedReply counts, per reply subject, the messages the listener is done with
+	listenedReply map[string]int
+	reqSeq        int64
+	extra         func(point string, arg interface{})
 }
 
 var hookMu sync.Mutex
@@ -107,6 +109,12 @@ func (r *Runner) hook(point string, arg interface{}) {
 	case "listener.msgDone":
 		r.mu.Lock()
 		r.listened++
+		if m, ok := arg.(*nats.Msg); ok && m != nil {
+			if r.listenedReply == nil {
+				r.listenedReply = map[string]int{}
+			}
+			r.listenedReply[m.Reply]++
+		}
 		r.mu.Unlock()
 		r.cond.Broadcast()
 	case "qlistener.msgDone":
@@ -143,6 +151,19 @@ func (r *Runner) WaitDone(reply string, n int) error {
 		if time.Now().After(deadline) {
 			if w := Wedged(); w != "" {
 				return Behaviour(fmt.Sprintf("request %s has not been processed after 30s and never will be: %s", reply, w))
+			}
+			if r.listenedReply[reply] >= n {
+				// the listener is done with the message; if nothing in the service is moving any
+				// more - every worker waits for work, the listener for messages - nothing will
+				// ever handle it (looked at twice, the count re-read in between)
+				r.mu.Unlock()
+				q1 := Quiescent()
+				time.Sleep(200 * time.Millisecond)
+				q2 := Quiescent()
+				r.mu.Lock()
+				if q1 != "" && q2 != "" && r.done[reply] < n {
+					return Behaviour(fmt.Sprintf("request %s was taken off the connection by the listener and is never handled: %s", reply, q2))
+				}
 			}
 			return fmt.Errorf("VERIF-INCONCLUSIVE: request %s not processed within 30s", reply)
 		}
@@ -213,6 +234,37 @@ func Wedged() string {
 		}
 	}
 	return ""
+}
+
+// Quiescent describes the service as at rest when it is: a listener goroutine exists and waits
+// for messages, and every worker goroutine (there may be none) waits for work. A request
+// the listener is done with and that has not been handled in that state never will be: no
+// goroutine is left that could do it. "" if something is still moving.
+func Quiescent() string {
+	buf := make([]byte, 1<<22)
+	buf = buf[:runtime.Stack(buf, true)]
+	workers, listeners := 0, 0
+	for _, g := range strings.Split(string(buf), "\n\n") {
+		head, _, _ := strings.Cut(g, "\n")
+		switch {
+		case strings.Contains(g, "go-res.(*Service).startWorker"):
+			if !strings.Contains(head, "[sync.Cond.Wait") {
+				return ""
+			}
+			workers++
+		case strings.Contains(g, "go-res.(*Service).startListener"):
+			if !strings.Contains(head, "[chan receive") && !strings.Contains(head, "[select") {
+				return ""
+			}
+			listeners++
+		case strings.Contains(g, "go-res.(*Request).executeHandler") || strings.Contains(g, "go-res.(*Service).processRequest"):
+			return ""
+		}
+	}
+	if listeners == 0 {
+		return ""
+	}
+	return fmt.Sprintf("the listener waits for messages and all %d workers wait for work", workers)
 }
 
 // QueryPassed returns how many query requests the query listeners have passed on to workers.
